@@ -49,7 +49,7 @@ class Settings:
             self.timeout = fx[1]
         elif k == 'cd':
             self.cwd = posixpath.normpath(fx[1] if not fx[1].startswith('./') else posixpath.join(self.cwd, fx[1][2:]))
-        elif k in ('mk', 'chmod', 'symlink', 'odd', 'env', 'unenv', 'noop'):
+        elif k in ('mk', 'chmod', 'symlink', 'odd', 'rmcwd', 'rmcwd_final', 'env', 'unenv', 'noop'):
             pass
         else:
             raise KeyError(k)
